@@ -514,4 +514,38 @@ theorem odd_mode_sign_convention (j : ℕ) (hj : 1 ≤ j) (hodd : j % 2 = 1) (hm
   push_cast
   ring
 
+/-- **the hypothesis of `coords_origin_is_centroid` is a statement about the input**: over a field of characteristic 0 the cast count of masked
+samples is non-zero exactly when the mask has a sample inside the array -/
+theorem centroid_hypothesis_iff_nonempty {K : Type} [Field K] [CharZero K] (mask : Arr Bool) :
+    ((maskMoments mask).1 : K) ≠ 0 ↔ ∃ i j : Nat, i < mask.s0.toNat ∧ j < mask.s1.toNat ∧ mask.get i j = true := by
+  rw [Nat.cast_ne_zero]
+  unfold maskMoments
+  simp only [sumRange_eq_sum]
+  rw [ne_eq, Finset.sum_eq_zero_iff]
+  constructor
+  · intro h
+    by_contra hc
+    apply h
+    intro i hi
+    rw [Finset.sum_eq_zero_iff]
+    intro j hj
+    by_cases hm : mask.get i j = true
+    · exact absurd ⟨i, j, Finset.mem_range.1 hi, Finset.mem_range.1 hj, hm⟩ hc
+    · simp [hm]
+  · rintro ⟨i, j, hi, hj, hm⟩ h
+    have h1 := h i (Finset.mem_range.2 hi)
+    rw [Finset.sum_eq_zero_iff] at h1
+    have h2 := h1 j (Finset.mem_range.2 hj)
+    simp [hm] at h2
+
+/-- … so: for every NON-EMPTY mask (characteristic 0) the default polar origin is the centroid — first moments of the default mesh coordinates
+over the mask vanish — with the hypothesis discharged from the input -/
+theorem coords_origin_is_centroid_of_nonempty {K : Type} [Field K] [CharZero K] (mask : Arr Bool)
+    (hne : ∃ i j : Nat, i < mask.s0.toNat ∧ j < mask.s1.toNat ∧ mask.get i j = true) :
+    (∑ i ∈ range mask.s0.toNat, ∑ j ∈ range mask.s1.toNat,
+      (if mask.get i j then zRR mask (zShift (K := K) mask) i else 0)) = 0 ∧
+    (∑ i ∈ range mask.s0.toNat, ∑ j ∈ range mask.s1.toNat,
+      (if mask.get i j then zCC mask (zShift (K := K) mask) j else 0)) = 0 :=
+  (coords_origin_is_centroid mask ((centroid_hypothesis_iff_nonempty mask).2 hne)).2.2
+
 end Lentil.C11
